@@ -24,8 +24,10 @@
     from a space whose members changed - and [purge]s K: K leaves the set of
     live objects, every container, every base list and the value store (a value
     records the cells it was computed from, transitively: [v_deps]).
-    Where the pinned tree deviates (D14, C13a-d in findings.d/C13.txt) the model
-    does what the code does in all the non-defective cases.
+    Where the pinned tree deviates (C13a, C13e, D3 in findings.d/C13.txt) the model
+    does what the code does in all the non-defective cases (D14, C13b, C13c were
+    repaired in /repo: 9ebab50, 76f1b96 - a namespace change of a space discards
+    every ItemSpace that holds a dynamic copy of it).
 
     Vocabulary kept out on purpose: references other than model-level
     references to spaces, renaming, input values, uncached cells,
@@ -326,15 +328,15 @@ Definition ns_change (st : state) (Ts items : list uid) : state :=
 
 (** after a structural deletion: derived cells without definer die.  The
     spaces in [Ts] (they lost a member) and the parents of those derived cells
-    lose their values; discarded are: the ItemSpaces in [items], the
-    ItemSpaces of the spaces in [Ts], and every ItemSpace that holds a copy of
-    a space that lost a derived cells *)
+    lose their values; discarded are: the ItemSpaces in [items] and every
+    ItemSpace that holds a copy of a space whose members changed
+    ([DynamicBase.on_namespace_change]: [clear_subs_rootitems]) *)
 Definition settle (st : state) (Ts items : list uid) : state :=
   let Kd := orphans st in
   let Tp := parents_of st Kd in
   let st1 := clear_vals (flat_map (cells_of st) (Ts ++ Tp)) st in
   purge (under_set st1 (Kd ++ filter (is_kind st1 KItem)
-                                    (items ++ flat_map (items_of st1) Ts ++ flat_map (dyn_roots st1) Tp)))%list st1.
+                                    (items ++ flat_map (dyn_roots st1) Ts ++ flat_map (dyn_roots st1) Tp)))%list st1.
 
 (** [cells.on_inherit] of the derived cells of the visited spaces: [clear_obj] *)
 Definition clear_derived (st : state) (Ts : list uid) : state :=
@@ -491,7 +493,7 @@ Definition step_new_space (st : state) (p : uid) (name : string) (bs : list uid)
     let st1 := add_obj (bump st) u (mkObj KSpace (p :: chain_of st p) name 0 false)
                        (Some (mkCont [] [] [] (dedupN bs) params)) in
     let st2 := upd_cont st1 p (add_space_entry name u) in
-    let st3 := if is_kind st KSpace p then ns_change st2 [p] (items_of st2 p) else st2 in
+    let st3 := if is_kind st KSpace p then ns_change st2 [p] (dyn_roots st2 p) else st2 in
     (push_handle (derive_space st3 u) u, ODone).
 
 Definition step_new_cells (st : state) (s : uid) (name : string) : state * out :=
@@ -529,7 +531,7 @@ Definition step_get_item (st : state) (s : uid) (k : Z) : state * out :=
 Definition create_derived (st : state) (visited : list uid) : state :=
   let changed := filter (fun T => match missing st T with [] => false | _ => true end) visited in
   let st1 := fold_left derive_space visited st in
-  ns_change st1 changed (flat_map (items_of st1) changed).
+  ns_change st1 changed (flat_map (dyn_roots st1) changed).
 
 Definition step_del_cells (st : state) (s c : uid) : state * out :=
   if negb (is_defined st c) then (st, ORejected)     (* "cannot delete derived" *)
